@@ -43,8 +43,8 @@ def enc_table(body, what):
 
 # ---------------------------------------------------------------- per-type presentation schemas
 
-W_U8, W_U16, W_U32, W_NAME, W_CSTR, W_B16, W_B64, W_WORD, W_CSTRS = 1, 2, 3, 4, 5, 6, 7, 8, 9
-R_U8, R_U16, R_U32, R_NAME, R_CSTR, R_B16REST, R_B64REST, R_OCTETS, R_CSTRS, R_TIMESTAMP, R_ENUM8, R_RTYPE = 1, 2, 3, 4, 5, 6, 7, 8, 9, 10, 13, 14
+W_U8, W_U16, W_U32, W_NAME, W_CSTR, W_B16, W_B64, W_WORD, W_CSTRS, W_TYPES, W_SALT, W_B32, W_RTYPE, W_QUOTED, W_IP4 = 1, 2, 3, 4, 5, 6, 7, 8, 9, 10, 11, 12, 13, 14, 15
+R_U8, R_U16, R_U32, R_NAME, R_CSTR, R_B16REST, R_B64REST, R_OCTETS, R_CSTRS, R_TIMESTAMP, R_TYPES, R_SALT, R_ENUM8, R_RTYPE, R_B32TOKEN, R_IP4 = 1, 2, 3, 4, 5, 6, 7, 8, 9, 10, 11, 12, 13, 14, 15, 16
 
 REGULAR = [  # struct, file
     ("A", "src/rdata/rfc1035/a.rs"), ("Aaaa", "src/rdata/aaaa.rs"), ("Soa", "src/rdata/rfc1035/soa.rs"),
@@ -53,6 +53,7 @@ REGULAR = [  # struct, file
     ("Ds", "src/rdata/dnssec.rs"), ("Dnskey", "src/rdata/dnssec.rs"), ("Rrsig", "src/rdata/dnssec.rs"),
     ("Cds", "src/rdata/cds.rs"), ("Cdnskey", "src/rdata/cds.rs"), ("Sshfp", "src/rdata/sshfp.rs"), ("Tlsa", "src/rdata/tlsa.rs"),
     ("Zonemd", "src/rdata/zonemd.rs"), ("Openpgpkey", "src/rdata/openpgpkey.rs"),
+    ("Nsec", "src/rdata/dnssec.rs"), ("Nsec3", "src/rdata/nsec3.rs"), ("Nsec3param", "src/rdata/nsec3.rs"), ("Caa", "src/rdata/caa.rs"),
 ]
 
 def call_args(body, start):
@@ -145,7 +146,11 @@ def type_schema(name, path, enums, codes):
                 elif t in enums:
                     wf.append([W_U8 if enums[t] == "u8" else W_U16, 2, ""])
                 elif t == "Rtype":
-                    wf.append([W_WORD, 0, ""])
+                    wf.append([W_RTYPE, 0, ""])
+                elif t and t.startswith("RtypeBitmap<"):
+                    wf.append([W_TYPES, 0, ""])
+                elif t and t.startswith("Nsec3Salt<"):
+                    wf.append([W_SALT, 2, ""])      # a block of its own with a (dynamic) comment
                 else:
                     raise GenError("%s: write_show of field type %r" % (name, t))
                 continue
@@ -157,16 +162,26 @@ def type_schema(name, path, enums, codes):
                 wf.append([W_B16, 0, ""])
             elif re.fullmatch(r"base64::encode_display\(&self\.\w+\)", arg):
                 wf.append([W_B64, 0, ""])
+            elif re.fullmatch(r"base32::encode_display_hex\(&self\.\w+\)", arg):
+                wf.append([W_B32, 0, ""])
+            elif re.fullmatch(r"DisplayQuoted::from_slice\(self\.\w+\.as_ref\(\)\)", arg):
+                wf.append([W_QUOTED, 0, ""])
             elif f:
                 t = fields.get(f.group(1))
                 if uint_kind(t):
                     wf.append([uint_kind(t), 0, ""])
                 elif t == "Serial":
                     wf.append([W_U32, 0, ""])
-                elif t in ("Ipv4Addr", "Ipv6Addr"):
+                elif t == "Ipv4Addr":
+                    wf.append([W_IP4, 0, ""])
+                elif t == "Ipv6Addr":
                     wf.append([W_WORD, 0, ""])
                 elif t in enums:
                     wf.append([W_U8 if enums[t] == "u8" else W_U16, 0, ""])
+                elif t == "CaaFlags":
+                    wf.append([W_U8, 0, ""])
+                elif t and t.startswith("CaaTag<"):
+                    wf.append([W_WORD, 0, ""])
                 else:
                     raise GenError("%s: write_token of field type %r" % (name, t))
             else:
@@ -182,7 +197,8 @@ def type_schema(name, path, enums, codes):
     for m in re.finditer(pat, body):
         if m.group(1):
             t = m.group(1)
-            k = {"u8": R_U8, "u16": R_U16, "u32": R_U32, "Serial": R_U32, "Ttl": R_U32, "Timestamp": R_TIMESTAMP, "Rtype": R_RTYPE}.get(t)
+            k = {"u8": R_U8, "u16": R_U16, "u32": R_U32, "Serial": R_U32, "Ttl": R_U32, "Timestamp": R_TIMESTAMP, "Rtype": R_RTYPE,
+                 "RtypeBitmap": R_TYPES, "Nsec3Salt": R_SALT, "OwnerHash": R_B32TOKEN, "CaaFlags": R_U8, "CaaTag": R_CSTR}.get(t)
             if k is None and t in enums:
                 k = R_ENUM8
             if k is None:
@@ -192,6 +208,10 @@ def type_schema(name, path, enums, codes):
             rk.append({"scan_name": R_NAME, "scan_charstr": R_CSTR, "scan_octets": R_OCTETS, "scan_charstr_entry": R_CSTRS}[m.group(2)])
         else:
             rk.append(R_B16REST if m.group(3) == "16" else R_B64REST)
+    if name == "A":
+        one(r"let\s+token\s*=\s*scanner\.scan_octets\(\)\?;\s*let\s+token\s*=\s*str::from_utf8\(token\.as_ref\(\)\)[^;]*;\s*A::from_str\(token\)", body, "A::scan")
+        one(r"Ipv4Addr::from_str\(s\)\.map\(A::new\)", src, "A::from_str")
+        rk = [R_IP4 if k == R_OCTETS else k for k in rk]
     if "scanner" in re.sub(pat, "", body).replace("scanner: &mut S", ""):
         raise GenError("%s: scan uses the scanner in a way the extractor does not know" % name)
     code = codes.get(name.upper())
@@ -225,6 +245,19 @@ def schemas(codes):
     ds = strip_comments(read("src/rdata/dnssec.rs"))
     one(r"impl ZonefileFmt for Timestamp\s*\{\s*fn fmt[^{]*\{\s*p\.write_token\(self\.0\)", ds, "Timestamp ZonefileFmt")
     one(r"if\s+token\.len\(\)\s*<=\s*10\s*\{\s*let\s+time\s*=\s*token\.parse::<u32>\(\)", ds, "Timestamp scan decimal form")
+    # RtypeBitmap: one token per type; scan: types to the end of the entry
+    one(r"impl<Octs: AsRef<\[u8\]>> ZonefileFmt for RtypeBitmap<Octs>\s*\{\s*fn fmt[^{]*\{\s*for\s+rtype\s+in\s+self\s*\{\s*p\.write_token\(rtype\)\?;\s*\}\s*Ok\(\(\)\)", ds, "RtypeBitmap ZonefileFmt")
+    one(r"while\s+scanner\.continues\(\)\s*\{\s*builder\s*\.add\(Rtype::scan\(scanner\)\?\)", ds, "RtypeBitmap::scan")
+    n3 = strip_comments(read("src/rdata/nsec3.rs"))
+    body = fn_body(n3, "fmt", after="ZonefileFmt for Nsec3Salt<Octs>")
+    one(r'^\s*p\.block\(\|p\|\s*\{\s*if\s+self\.as_slice\(\)\.is_empty\(\)\s*\{\s*p\.write_token\("-"\)\?;\s*\}\s*else\s*\{\s*p\.write_token\(base16::encode_display\(self\)\)\?;\s*\}\s*p\.write_comment\(format_args!\(', body, "Nsec3Salt ZonefileFmt")
+    one(r"symbol\.into_char\(\)\s*==\s*Ok\('-'\)", n3, "Nsec3Salt::scan dash")
+    one(r"struct Converter\(base32::SymbolConverter,\s*usize\);", n3, "OwnerHash::scan converter")
+    caa = strip_comments(read("src/rdata/caa.rs"))
+    one(r'impl fmt::Display for CaaFlags\s*\{\s*fn fmt[^{]*\{\s*write!\(f,\s*"\{\}",\s*self\.0\)', caa, "CaaFlags Display")
+    one(r"Ok\(CaaFlags\(u8::scan\(scanner\)\?\)\)", caa, "CaaFlags scan")
+    one(r"let\s+octets\s*=\s*CharStr::scan\(scanner\)\?;\s*CaaTag::check_slice\(octets\.as_slice\(\)\)", caa, "CaaTag scan")
+    one(r"octets\.iter\(\)\.any\(\|e\|\s*!e\.is_ascii_alphanumeric\(\)\)", caa, "CaaTag charset")
     all_ = name_types(codes) + [type_schema(n, p, enums, codes) for n, p in REGULAR]
     all_.sort()
     def fld(f):
@@ -290,6 +323,9 @@ def build():
         raise GenError("next_item dispatch order changed: %r" % vals)
     defs += [("ch_open", "N", "40%N"), ("ch_close", "N", "41%N"), ("ch_comment", "N", "59%N"), ("ch_lf", "N", "10%N"), ("ch_quote", "N", "34%N")]
     one(r"if\s+self\.parens\s*>\s*0\s*\{\s*self\.parens\s*-=\s*1;", body, "next_item closing paren")
+    one(r"else\s+if\s+ch\s*==\s*b'\('\s*\{\s*self\.parens\s*\+=\s*1;", body, "next_item opening paren counts")
+    one(r"parens:\s*usize,", inp, "parens is a counter")
+    defs.append(("parens_is_counter", "bool", "true"))
     one(r"if\s+self\.parens\s*==\s*0\s*\{\s*self\.cat\s*=\s*ItemCat::LineFeed;", body, "next_item line feed")
     # convert_label / scan_name limits
     body = fn_body(inp, "convert_label", after="impl EntryScanner")
@@ -298,6 +334,8 @@ def build():
     if len(re.findall(r"if\s+\*write\s*>=\s*latest", body)) != 2:
         raise GenError("convert_label length checks changed")
     body = fn_body(inp, "scan_name", after="impl Scanner for EntryScanner")
+    one(r"if\s+write\s*==\s*start\s*\+\s*1\s*\{\s*return\s+Err\(EntryError::bad_name\(\)\);", body, "scan_name rejects an empty label")
+    defs.append(("scan_name_rejects_empty_label", "bool", "true"))
     m = one(r"if\s+write\s*>\s*(\d+)\s*\{\s*return\s+Err\(EntryError::bad_name\(\)\)", body, "scan_name length check")
     defs.append(("name_write_max", "N", "%d%%N" % num(m.group(1))))
     one(r"self\.zonefile\.buf\.require_token\(\)\?;\s*if\s+self\.zonefile\.buf\.skip_at_token\(\)\?\s*\{\s*return\s+RelativeName::empty_bytes\(\)\s*\.chain\(self\.zonefile\.origin\(\)\?\)", body, "scan_name free standing @")
@@ -380,6 +418,13 @@ def build():
     body = fn_body(sv, "allowed_key_charset")
     one(r"^\s*\(0x61\.\.=0x7A\)\.contains\(&ch\)\s*\|\|\s*\(0x30\.\.=0x39\)\.contains\(&ch\)\s*\|\|\s*0x2D\s*==\s*ch\s*$", body, "SvcParamKey charset a-z 0-9 -")
     defs.append(("svcb_key_charset_inclusive", "bool", "true"))
+    # ---- SVCB values written with escapes (dohpath, unknown keys): from_octet plus parentheses
+    body = fn_body(sv, "fmt", after="fmt::Display for UnknownSvcParam<Octs>")
+    one(r"for\s+&ch\s+in\s+slice\s*\{\s*if\s+ch\s*==\s*b'\('\s*\|\|\s*ch\s*==\s*b'\)'\s*\{\s*write!\(f,\s*\"\\\\\{\}\",\s*ch as char\)\?;\s*\}\s*else\s*\{\s*Symbol::from_octet\(ch\)\.fmt\(f\)\?;", body, "UnknownSvcParam Display escapes")
+    svv = strip_comments(read("src/rdata/svcb/value.rs"))
+    body = fn_body(svv, "fmt", after="fmt::Display for DohPath<Octs>")
+    one(r"for\s+&ch\s+in\s+self\.as_slice\(\)\s*\{\s*if\s+ch\s*==\s*b'\('\s*\|\|\s*ch\s*==\s*b'\)'\s*\{\s*write!\(f,\s*\"\\\\\{\}\",\s*ch as char\)\?;\s*\}\s*else\s*\{\s*fmt::Display::fmt\(\s*&crate::base::scan::Symbol::from_octet\(ch\),", body, "DohPath Display escapes")
+    defs.append(("svcb_values_escaped_with_parens", "bool", "true"))
     # ---- unsigned scanner
     body = scan[scan.index("macro_rules! impl_scan_unsigned"):scan.index("impl_scan_unsigned!(u8)")]
     one(r"res\s*=\s*res\.checked_mul\(10\)\.ok_or_else", body, "unsigned scan checked_mul")
